@@ -355,10 +355,9 @@ def rule_g(ctx: Ctx) -> None:
     base_url_chain(ctx, 'C09.g')
 
 
-def rule_h(ctx: Ctx) -> None:
+def rule_h(ctx: Ctx, rule: str = 'C09.h') -> None:
     """A copy behaves like the original: a `__copy__` that builds the new object through the constructor hands over every option the
     constructor takes (a parameter left out silently falls back to its default - e.g. default settings instead of the schema's)."""
-    rule = 'C09.h'
     n = 0
     for c in ctx.idx.classes.values():
         if not c.module.name.startswith(('xmlschema.validators', 'xmlschema.resources', 'xmlschema.namespaces', 'xmlschema.converters', 'xmlschema.loaders')):
@@ -386,7 +385,7 @@ def rule_h(ctx: Ctx) -> None:
                    '' if not missing else f'`{missing[0]}` is not passed: the copy is built with the default - e.g. a copy of the global maps of a schema opened with '
                    'converter=…, defuse=… or a custom loader validates and decodes with the default options', key=f'{c.name}.__copy__|ctor-args')
     ctx.floor(rule, 'constructor calls inside __copy__ methods', n, 1)
-    ctx.explain('C09.h: for every __copy__ that builds through `type(self)(…)`, the parameters of __init__ that the instance stores must all be '
+    ctx.explain(f'{rule}: for every __copy__ that builds through `type(self)(…)`, the parameters of __init__ that the instance stores must all be '
                 'among the arguments.')
 
 
@@ -530,4 +529,38 @@ def rule_l(ctx: Ctx) -> None:
                 '(XsdGlobals.clear / build, XMLSchemaBase.clear, GlobalMaps.clear) are searched for a reset of an `.errors` list.')
 
 
-RULES = [rule_a, rule_b, rule_c, rule_d, rule_e, rule_f, rule_g, rule_h, rule_i, rule_j, rule_k, rule_l]
+def rule_m(ctx: Ctx) -> None:
+    """Listing the imports in another order must not change the schema: what a document may refer to is decided by its *own* xs:import statements
+    (resolve_qname checks schema.imported_namespaces), not by what happened to be loaded before it was processed.  So every well-formed xs:import is recorded,
+    loaded namespace or not; only an erroneous import (reported) is skipped."""
+    rule = 'C09.m'
+    f = ctx.idx.func('xmlschema.loaders.SchemaLoader.load_declared_schemas')
+    ctx.analysed(f.qualname)
+    g = cfg_of(ctx, f)
+    recs = [n for n, c in call_nodes(g, lambda c: text(c.func).endswith('imported_namespaces.append'))]
+    ctx.floor(rule, 'recordings of an imported namespace', len(recs), 1)
+    imp = [x for x in g.nodes if x.kind == 'if' and 'XSD_IMPORT' in text(x.ast.test)]
+    if not imp:
+        raise AnalysisError(f'UNRECOGNISED-IDIOM {rule}: the xs:import branch of load_declared_schemas')
+    reporters = [n for n, c in call_nodes(g, lambda c: isinstance(c.func, ast.Attribute) and c.func.attr == 'parse_error')]
+    conts = [n for n in g.nodes if n.kind == 'continue' and (text(imp[0].ast.test), 'T') in guards(ctx, f, n)]
+    k = 0
+    for cn in conts:
+        # a way round the recording: reachable from the import test without passing the recording ...
+        if g.must_pass(imp[0], [cn], recs, kinds='nTF') is None:
+            continue
+        k += 1
+        # ... is legitimate only behind an error report
+        w = g.must_pass(imp[0], [cn], reporters, kinds='nTF')
+        ok = w is None
+        ctx.ob(rule, 'load_declared_schemas: an xs:import that is skipped before it is recorded has been reported as erroneous', f.loc(cn.ast), ok,
+               '' if ok else f'`continue` under {sorted(t for t, lab in guards(ctx, f, cn) if "XSD_IMPORT" not in t and not t.startswith("for "))[:2]} leaves the import unrecorded: a '
+               'document whose location-less import names a namespace that another document loaded first may not refer to it ("has not an xs:import statement") - the build '
+               'depends on the order of the imports', key='load_declared_schemas|import-recorded')
+    ctx.ob(rule, 'load_declared_schemas: the recording of the imported namespace exists in the xs:import branch', f.loc(recs[0].ast), all((text(imp[0].ast.test), 'T') in guards(ctx, f, r) for r in recs), '',
+           key='load_declared_schemas|recording-in-branch', nontrivial=False)
+    ctx.explain('C09.m: in the xs:import branch of SchemaLoader.load_declared_schemas every `continue` that is reachable without `schema.imported_namespaces.append(…)` lies behind a '
+                'parse_error report (must-pass-through).')
+
+
+RULES = [rule_a, rule_b, rule_c, rule_d, rule_e, rule_f, rule_g, rule_h, rule_i, rule_j, rule_k, rule_l, rule_m]
